@@ -70,6 +70,57 @@ where
     | [] => (K, [])
     | f :: fs => let r := removeState K f; let r' := removeStateList r.1 fs; (r'.1, r.2 :: r'.2)
 
+
+/-! ### ghost instrumentation: the same computation, additionally returning every (name, set) pair handed to
+    `addLabel`, in order.  Used to state (and to check at run time) that the naming discipline worked. -/
+
+def checkQT (K : Kripke σ) (isA : Bool) (g : Fm) : Kripke σ × List σ × List (String × List σ) :=
+  if isA then (K, checkA K g, [])
+  else if (Fm.E g).isCTLState then (K, CTL.check K (.E g), [])
+  else
+    let h := g.lnot
+    let name := freshName K (.A h)
+    let S := checkA K h
+    let K' := K.addLabel name S
+    (K', CTL.check K' (.not (.ap name)), [(name, S)])
+
+def removeStateT (K : Kripke σ) : Fm → Kripke σ × Fm × List (String × List σ)
+  | .tt => (K, .tt, []) | .ff => (K, .ff, []) | .ap n => (K, .ap n, [])
+  | .A g =>
+      let name := freshName K (.A g)
+      let r := removeStateT K g
+      let q := checkQT r.1 true r.2.1
+      (q.1.addLabel name q.2.1, .ap name, r.2.2 ++ q.2.2 ++ [(name, q.2.1)])
+  | .E g =>
+      let name := freshName K (.E g)
+      let r := removeStateT K g
+      let q := checkQT r.1 false r.2.1
+      (q.1.addLabel name q.2.1, .ap name, r.2.2 ++ q.2.2 ++ [(name, q.2.1)])
+  | .not f => let r := removeStateT K f; (r.1, .not r.2.1, r.2.2)
+  | .X f => let r := removeStateT K f; (r.1, .X r.2.1, r.2.2)
+  | .F f => let r := removeStateT K f; (r.1, .F r.2.1, r.2.2)
+  | .G f => let r := removeStateT K f; (r.1, .G r.2.1, r.2.2)
+  | .or fs => let r := removeStateTList K fs; (r.1, .or r.2.1, r.2.2)
+  | .and fs => let r := removeStateTList K fs; (r.1, .and r.2.1, r.2.2)
+  | .imp f g => let r := removeStateT K f; let r' := removeStateT r.1 g; (r'.1, .imp r.2.1 r'.2.1, r.2.2 ++ r'.2.2)
+  | .U f g => let r := removeStateT K f; let r' := removeStateT r.1 g; (r'.1, .U r.2.1 r'.2.1, r.2.2 ++ r'.2.2)
+  | .R f g => let r := removeStateT K f; let r' := removeStateT r.1 g; (r'.1, .R r.2.1 r'.2.1, r.2.2 ++ r'.2.2)
+where
+  removeStateTList (K : Kripke σ) : List Fm → Kripke σ × List Fm × List (String × List σ)
+    | [] => (K, [], [])
+    | f :: fs =>
+      let r := removeStateT K f
+      let r' := removeStateTList r.1 fs
+      (r'.1, r.2.1 :: r'.2.1, r.2.2 ++ r'.2.2)
+
+/-- the naming discipline worked on this run: no generated name is an atom of the formula or a label of the
+    original structure, and a name generated twice was generated for the same set of states -/
+def namesOK (K : Kripke σ) (f : Fm) : Bool :=
+  let tr := (removeStateT K f).2.2
+  tr.all (fun p => !(f.atoms.contains p.1) && !(K.allLabels.contains p.1)) &&
+  tr.all (fun p => tr.all (fun q => p.1 != q.1 ||
+    (p.2.all (fun s => q.2.contains s) && q.2.all (fun s => p.2.contains s))))
+
 /-- `CTLS.modelcheck(K, f)`, `F=None` -/
 def modelcheck (K : Kripke σ) (f : Fm) : Except Err (List σ) :=
   let r := removeState K f
